@@ -8,7 +8,7 @@ use kolibrie_verif_rt::harness::{self, Tier};
 fn usage() -> ! { eprintln!("usage: ksim-core <C07|C08|C05|C12|C19> <quick|thorough> | replay <file> | one <ID> <run_index> [tier]"); std::process::exit(2) }
 fn tier(s: &str) -> Tier { match s { "quick" => Tier::Quick, "thorough" => Tier::Thorough, _ => usage() } }
 macro_rules! dispatch {
-    ($id:expr, $f:ident $(, $a:expr)*) => { match $id { "C07" => harness::$f(sddsim::C07 $(, $a)*), "C08" => harness::$f(hybsim::C08 $(, $a)*), "C05" => harness::$f(dlsim::C05 $(, $a)*), "C19" => harness::$f(dlsim::C19 $(, $a)*), "C12" => harness::$f(dlsim::C12 $(, $a)*), _ => usage() } };
+    ($id:expr, $f:ident $(, $a:expr)*) => { match $id { "C07" => harness::$f(sddsim::C07 $(, $a)*), "C08" => harness::$f(hybsim::C08 $(, $a)*), "C05" => harness::$f(dlsim::C05 $(, $a)*), "C19" => harness::$f(dlsim::C19 $(, $a)*), _ => usage() } };
 }
 fn main() {
     let args: Vec<String> = std::env::args().collect();
